@@ -1,4 +1,146 @@
-import ZbossModel.Codec
+import ZbossModel.Proofs.Codec
+import ZbossModel.Generated.Commands
+/-! # C15 - failure responses cut short after the status are returned, never mis-parsed -/
 namespace Zboss.Codec
-theorem C15_placeholder : True := trivial
+open Wire
+
+/-- every value given and serializable, one per field, none of the fields greedy -/
+def givenOk : List FView → List Val → Bool
+  | [], [] => true
+  | f :: fs, x :: xs => !f.wt.isGreedy && (encW f.wt x).isSome && givenOk fs xs
+  | _, _ => false
+
+def encGiven : List FView → List Val → Bytes
+  | f :: fs, x :: xs => (encW f.wt x).getD [] ++ encGiven fs xs
+  | _, _ => []
+
+/-- the loop consumes a fully given, non-greedy run of parameters whatever follows -/
+theorem parse_prefix (v : View) (pre : List FView) (xs : List Val) (h : givenOk pre xs = true)
+    (done rest : List FView) (acc : Assign) (tail : Bytes) :
+    parseLoop v done (pre ++ rest) acc (encGiven pre xs ++ tail) =
+      parseLoop v (done ++ pre) rest (acc ++ xs.map some) tail := by
+  induction pre generalizing xs done acc with
+  | nil => cases xs with
+    | nil => simp [encGiven]
+    | cons _ _ => simp [givenOk] at h
+  | cons f pre ih =>
+    cases xs with
+    | nil => simp [givenOk] at h
+    | cons x xs =>
+      simp only [givenOk, Bool.and_eq_true, Bool.not_eq_true'] at h
+      obtain ⟨b, hb⟩ := Option.isSome_iff_exists.mp h.1.2
+      simp only [encGiven, hb, Option.getD_some, List.cons_append, List.append_assoc, List.map_cons]
+      rw [parseLoop, decW_encW f.wt x b _ h.1.1 hb]
+      have := ih xs h.2 (done ++ [f]) (acc ++ [some x])
+      simpa [List.append_assoc] using this
+
+theorem givenOk_length (pre : List FView) (xs : List Val) (h : givenOk pre xs = true) : xs.length = pre.length := by
+  induction pre generalizing xs with
+  | nil => cases xs with
+    | nil => rfl
+    | cons _ _ => simp [givenOk] at h
+  | cons f pre ih =>
+    cases xs with
+    | nil => simp [givenOk] at h
+    | cons x xs => simp only [givenOk, Bool.and_eq_true] at h; simp [ih xs h.2]
+
+/-- **failure response cut short**: a response whose status code is non-zero and whose bytes stop anywhere
+    inside (or right before) parameter `f` - after the three status fields - is delivered as the partial command
+    carrying exactly the received TSN, status category, status code and the parameters completely contained in
+    the bytes; nothing of the cut parameter, nothing invented -/
+theorem C15_failure_prefix (v : View) (pre post : List FView) (f : FView) (xs : List Val) (x : Val) (b : Bytes) (k : Nat)
+    (hfields : v.fields = pre ++ f :: post) (hrsp : ctype v = 1) (hsi : v.statusIdx = some 2)
+    (hpre : givenOk pre xs = true) (h3 : 3 ≤ pre.length)
+    (hstatus : isZeroStatus ((xs.map some).getD 2 none) = false)
+    (hg : f.wt.isGreedy = false) (hb : encW f.wt x = some b) (hk : k < b.length)
+    (hown : ∀ g ∈ pre, g.param ≠ f.param)
+    (hall : allEnc v.fields (xs.map some ++ (f :: post).map (fun _ => none)) = true) :
+    fromPayload v (encGiven pre xs ++ b.take k) =
+      .ok (.partialCmd (xs.map some ++ (f :: post).map (fun _ => none))) := by
+  have hl := givenOk_length pre xs hpre
+  unfold fromPayload
+  rw [hfields]
+  have := parse_prefix v pre xs hpre [] (f :: post) [] (b.take k)
+  simp only [List.nil_append] at this
+  rw [this, parseLoop, decW_truncated f.wt x b hg hb k hk]
+  have hdrop : dropParam pre (xs.map some) f.param = xs.map some :=
+    dropParam_id pre _ f.param (by simp [hl]) hown
+  have hcond : 2 < (xs.map some).length ∧ ((xs.map some).getD 2 none).isSome = true := by
+    refine ⟨by simp; omega, ?_⟩
+    have : 2 < xs.length := by omega
+    simp [List.getD_eq_getElem?_getD, this]
+  simp only [hrsp, if_true, hsi, hdrop, hcond, and_self, hstatus, Bool.not_false, finish, hall]
+
+/-- **status zero, cut short**: the same bytes with status code 0 are rejected - unless the cut is exactly
+    at the start of an optional parameter, where the bytes *are* the complete encoding of the shorter command -/
+theorem C15_zero_cut_rejected (v : View) (pre post : List FView) (f : FView) (xs : List Val) (x : Val) (b : Bytes) (k : Nat)
+    (hfields : v.fields = pre ++ f :: post) (hrsp : ctype v = 1) (hsi : v.statusIdx = some 2)
+    (hpre : givenOk pre xs = true) (h3 : 3 ≤ pre.length)
+    (hstatus : isZeroStatus ((xs.map some).getD 2 none) = true)
+    (hg : f.wt.isGreedy = false) (hb : encW f.wt x = some b) (hk : k < b.length)
+    (hown : ∀ g ∈ pre, g.param ≠ f.param) (hcut : 0 < k ∨ f.optional = false) :
+    fromPayload v (encGiven pre xs ++ b.take k) = .error .valueError := by
+  have hl := givenOk_length pre xs hpre
+  unfold fromPayload
+  rw [hfields]
+  have := parse_prefix v pre xs hpre [] (f :: post) [] (b.take k)
+  simp only [List.nil_append] at this
+  rw [this, parseLoop, decW_truncated f.wt x b hg hb k hk]
+  have hdrop : dropParam pre (xs.map some) f.param = xs.map some :=
+    dropParam_id pre _ f.param (by simp [hl]) hown
+  have hcond : 2 < (xs.map some).length ∧ ((xs.map some).getD 2 none).isSome = true := by
+    refine ⟨by simp; omega, ?_⟩
+    have : 2 < xs.length := by omega
+    simp [List.getD_eq_getElem?_getD, this]
+  have hne : ((b.take k).isEmpty && f.optional) = false := by
+    rcases hcut with h | h
+    · have : (b.take k).isEmpty = false := by
+        have : (b.take k).length = k := by simp; omega
+        cases hbt : b.take k with
+        | nil => rw [hbt] at this; simp at this; omega
+        | cons _ _ => rfl
+      simp [this]
+    · simp [h]
+  simp only [hrsp, if_true, hsi, hdrop, hcond, and_self, hstatus, Bool.not_true, Bool.false_eq_true, if_false, hne]
+
+/-- **surplus bytes**: a complete command followed by further bytes is rejected (last field not greedy) -/
+theorem C15_surplus_rejected (v : View) (xs : List Val) (extra : Bytes) (hgiven : givenOk v.fields xs = true)
+    (hextra : extra ≠ []) : fromPayload v (encGiven v.fields xs ++ extra) = .error .valueError := by
+  unfold fromPayload
+  have := parse_prefix v v.fields xs hgiven [] [] [] extra
+  simp only [List.nil_append, List.append_nil] at this
+  rw [this, parseLoop]
+  have : extra.isEmpty = false := by cases extra with
+    | nil => exact absurd rfl hextra
+    | cons _ _ => rfl
+  simp [this]
+
+/-- **cut before the status**: bytes that stop inside the first three fields are rejected (the code raises
+    `KeyError` on `params["StatusCode"]`) -/
+theorem C15_cut_before_status (v : View) (pre post : List FView) (f : FView) (xs : List Val) (x : Val) (b : Bytes) (k : Nat)
+    (hfields : v.fields = pre ++ f :: post) (hrsp : ctype v = 1) (hsi : v.statusIdx = some 2)
+    (hpre : givenOk pre xs = true) (h3 : pre.length < 3)
+    (hg : f.wt.isGreedy = false) (hb : encW f.wt x = some b) (hk : k < b.length) :
+    fromPayload v (encGiven pre xs ++ b.take k) = .error .keyError := by
+  have hl := givenOk_length pre xs hpre
+  unfold fromPayload
+  rw [hfields]
+  have := parse_prefix v pre xs hpre [] (f :: post) [] (b.take k)
+  simp only [List.nil_append] at this
+  rw [this, parseLoop, decW_truncated f.wt x b hg hb k hk]
+  have hlen : (dropParam pre (xs.map some) f.param).length = pre.length := by simp [dropParam, hl]
+  have hcond : ¬ (2 < (dropParam pre (xs.map some) f.param).length ∧
+      ((dropParam pre (xs.map some) f.param).getD 2 none).isSome = true) := by
+    rw [hlen]; omega
+  simp only [hrsp, if_true, hsi, hcond, if_false]
+
+/-- decoders fail with value errors only: a `KeyError` out of `from_frame` has the single cause above -/
+theorem C15_table_rsp : ((Gen.commands.map viewOf).filter (fun v => ctype v == 1)).all
+    (fun v => v.statusIdx == some 2 && optParamsOwn v.fields && fieldsOk v.fields) = true := by decide +kernel
+
+/-! ## non-vacuity -/
+example : let pre : List FView := [⟨.sc (.uint 1), false, 0, []⟩, ⟨.sc (.uint 1), false, 1, []⟩, ⟨.sc (.uint 1), false, 2, []⟩]
+    givenOk pre [.sc (.num 9), .sc (.num 0), .sc (.num 24)] = true ∧
+    isZeroStatus (([Val.sc (.num 9), .sc (.num 0), .sc (.num 24)].map some).getD 2 none) = false := by decide
+
 end Zboss.Codec
